@@ -15,6 +15,8 @@ mod c08;
 mod c14;
 mod c15;
 mod c17;
+mod c17a;
+mod c17w;
 mod c19;
 mod c20;
 mod report;
@@ -31,7 +33,7 @@ use serde_json::{json, Value};
 use std::time::Instant;
 
 fn scenarios() -> Vec<&'static dyn Scenario> {
-    vec![&c05::C05, &c04::C04, &c06::C06, &c07::C07, &c19::C19, &c15::THREADS_C15, &c15::THREADS_C16, &c17::C17, &c08::C08, &c14::C14, &c02::C02, &c20::C20, &c03::C03, &vmscript::Script]
+    vec![&c05::C05, &c04::C04, &c06::C06, &c07::C07, &c19::C19, &c15::THREADS_C15, &c15::THREADS_C16, &c17::C17, &c17w::C17W, &c17a::ARRIVAL_C17, &c08::C08, &c14::C14, &c02::C02, &c20::C20, &c03::C03, &vmscript::Script]
 }
 
 fn scenario_by_name(name: &str) -> &'static dyn Scenario {
@@ -120,7 +122,11 @@ fn cmd_check(args: &[String]) -> i32 {
         .and_then(|s| s.parse().ok())
         .unwrap_or_else(|| std::thread::available_parallelism().map(|n| n.get()).unwrap_or(8));
     let seed = base_seed();
-    let scns: Vec<&'static dyn Scenario> = scenarios().into_iter().filter(|s| s.property() == property).collect();
+    let only = arg_val(args, "--scenario");
+    let scns: Vec<&'static dyn Scenario> = scenarios()
+        .into_iter()
+        .filter(|s| s.property() == property && only.as_ref().map(|o| s.name() == o).unwrap_or(true))
+        .collect();
     if scns.is_empty() {
         eprintln!("no scenario for property {}", property);
         return 2;
